@@ -206,6 +206,21 @@ pub fn c12_check(h: &Hist) -> Option<(String, String)> {
     None
 }
 
+/// the converse direction of "every listed child reports its parent": a live node that reports a parent is
+/// listed among that parent's children, exactly once (raw view only: in the merged view the pieces of a merged
+/// text node are deliberately not listed)
+pub fn listed_by_parent(h: &Hist) -> Option<(String, String)> {
+    for i in 0..h.pool.h.len() {
+        let n = &h.pool.h[i].node;
+        if !matches!(kind_of(n), K::Element | K::Text | K::CData | K::Comment | K::PI | K::EntRef | K::Doctype) { continue; }
+        if let Some(p) = n.parent_node() {
+            let times = p.child_nodes().iter().filter(|c| same_node(c, n)).count();
+            if times != 1 { return Some((format!("tree/not-listed-by-parent/{:?}", kind_of(n)), format!("{} reports parent id {} ({:?}) but is listed {} times among its children", h.pool.describe(i), p.id(), kind_of(&p), times))); }
+        }
+    }
+    None
+}
+
 fn history_len(ctx: &Ctx, r: &mut Rng) -> usize { if ctx.thorough { r.range(1, 120) } else { r.range(1, 30) } }
 
 pub fn c12(ctx: &mut Ctx) {
@@ -233,7 +248,7 @@ pub fn c12(ctx: &mut Ctx) {
             // a removed / replaced node has no parent
             let itself = matches!(&op, Op::ReplaceChild { n, o, .. } if n == o);
             if let (true, false, Op::RemoveChild { .. } | Op::ReplaceChild { .. }, Outcome::Ok(Ret::Node(x))) = (ok, itself, &op, &out) { if let Some(p) = h.pool.h[x.idx].node.parent_node() { ctx.violation(i, "C12/tree/removed-node-has-parent", &format!("{} returned a node whose parent_node() is id {} :: history {:?} :: doc {}", desc, p.id(), h.log, h.text), &[("doc", &h.text), ("history", &h.log.join("\n"))]); break; } }
-            let chk = guarded(|| c12_check(&h));
+            let chk = guarded(|| c12_check(&h).or_else(|| if merged { None } else { listed_by_parent(&h) }));
             match chk {
                 Caught::Ok(None) => {}
                 Caught::Ok(Some((sig, detail))) => { ctx.violation(i, &format!("C12/{}", sig), &format!("{} :: after {} ({}) :: history {:?} :: doc {}", detail, desc, if ok { "Ok" } else { "Err" }, h.log, h.text), &[("doc", &h.text), ("history", &h.log.join("\n"))]); break; }
